@@ -54,6 +54,7 @@ SPELLINGS = {
     "boundary": {
         "None": (None, {}),
         "scalar": ("fill", {"AX": "fill", "AY": "fill"}),
+        "empty mapping": ({}, {}),
         "total mapping": ({Sym("AX"): "fill", Sym("AY"): "periodic"}, {"AX": "fill", "AY": "periodic"}),
         "partial mapping (AX)": ({Sym("AX"): "extend"}, {"AX": "extend"}),
         "partial mapping (AY)": ({Sym("AY"): "fill"}, {"AY": "fill"}),
@@ -61,6 +62,10 @@ SPELLINGS = {
     "fill_value": {
         "None": (None, {}),
         "scalar": (9.0, {"AX": 9.0, "AY": 9.0}),
+        "scalar zero": (0, {"AX": 0, "AY": 0}),
+        "scalar 0.0": (0.0, {"AX": 0.0, "AY": 0.0}),
+        "mapping with a zero": ({Sym("AX"): 0.0}, {"AX": 0.0}),
+        "empty mapping": ({}, {}),
         "total mapping": ({Sym("AX"): 3.0, Sym("AY"): 4.0}, {"AX": 3.0, "AY": 4.0}),
         "partial mapping (AX)": ({Sym("AX"): 3.0}, {"AX": 3.0}),
         "partial mapping (AY)": ({Sym("AY"): 4.0}, {"AY": 4.0}),
